@@ -317,7 +317,7 @@ impl<'data> ProguardCache<'data> {
         // At this point, we know how many members/members-by-params each class has because we kept count,
         // but we don't know where each class's entries start. We'll rectify that below.
 
-        let mut writer = watto::Writer::new(writer);
+        let mut writer = PaddedWriter::new(writer);
         let string_bytes = string_table.into_bytes();
 
         let num_members = classes.values().map(|c| c.class.members_len).sum::<u32>();
@@ -336,7 +336,7 @@ impl<'data> ProguardCache<'data> {
         };
 
         writer.write_all(header.as_bytes())?;
-        writer.align_to(8)?;
+        writer.pad_to_8()?;
 
         let mut members = Vec::new();
         let mut members_by_params = Vec::new();
@@ -353,13 +353,13 @@ impl<'data> ProguardCache<'data> {
             );
             writer.write_all(c.class.as_bytes())?;
         }
-        writer.align_to(8)?;
+        writer.pad_to_8()?;
 
         writer.write_all(members.as_bytes())?;
-        writer.align_to(8)?;
+        writer.pad_to_8()?;
 
         writer.write_all(members_by_params.as_bytes())?;
-        writer.align_to(8)?;
+        writer.pad_to_8()?;
 
         writer.write_all(&string_bytes)?;
 
@@ -409,6 +409,35 @@ impl<'data> ProguardCache<'data> {
 
     pub(crate) fn read_string(&self, offset: u32) -> Result<&'data str, watto::ReadStringError> {
         StringTable::read(self.string_bytes, offset as usize)
+    }
+}
+
+/// A wrapper around [`Write`] that keeps track of the output position modulo 8, so that
+/// sections can be padded to 8-byte boundaries.
+///
+/// All bytes, including padding, are written with [`Write::write_all`]. A sink that accepts
+/// fewer bytes than offered therefore cannot silently shorten the output.
+struct PaddedWriter<W> {
+    inner: W,
+    /// The number of bytes written so far, modulo 8.
+    offset: usize,
+}
+
+impl<W: Write> PaddedWriter<W> {
+    fn new(inner: W) -> Self {
+        Self { inner, offset: 0 }
+    }
+
+    fn write_all(&mut self, buf: &[u8]) -> std::io::Result<()> {
+        self.inner.write_all(buf)?;
+        self.offset = (self.offset % 8 + buf.len() % 8) % 8;
+        Ok(())
+    }
+
+    /// Writes zero bytes until the output position is a multiple of 8.
+    fn pad_to_8(&mut self) -> std::io::Result<()> {
+        let padding = (8 - self.offset % 8) % 8;
+        self.write_all(&[0u8; 8][..padding])
     }
 }
 
